@@ -428,6 +428,70 @@ from props_threads import PROPS_THREADS, EXTERNAL_THREADS
 PROPS.update(PROPS_THREADS)
 EXTERNAL.update(EXTERNAL_THREADS)
 
+# ------------------------------------------------------------------ phcrun: the PHC path of the release daemon, end to end
+def phcrun_exec(reqs):
+    """`phcrun <refid argument, hex> <chrony refid> <stratum> <ipv4 word> <phc value>` (tools/phc_run.sh)"""
+    env = dict(os.environ); env['CARGO_NET_OFFLINE'] = 'true'
+    p = subprocess.run(['cargo', 'build', '--release', '--offline', '-p', 'clock-bound-d', '--target-dir', '/verif/build/target-rel'],
+                       cwd='/repo', env=env, stdin=subprocess.DEVNULL, stdout=subprocess.PIPE, stderr=subprocess.STDOUT, text=True)
+    if p.returncode != 0:
+        return [f'{r} => build-failed' for r in reqs]
+    def one(r):
+        t = r.split()
+        try:
+            q = subprocess.run([b'/verif/tools/phc_run.sh', b'/verif/build/target-rel/release/clockbound', b'/verif/build/target/debug/cbharness',
+                                bytes.fromhex(t[1])] + [x.encode() for x in t[2:6]],
+                               stdin=subprocess.DEVNULL, stdout=subprocess.PIPE, stderr=subprocess.DEVNULL, timeout=60)
+            a = q.stdout.decode(errors='replace').split()
+        except (subprocess.TimeoutExpired, ValueError):
+            a = ['none']
+        if a[:1] == ['exited']: a = ['exited']       # the exit code of a refusal is not part of the contract
+        return f"{r} => {' '.join(a) or 'none'}"
+    with concurrent.futures.ThreadPoolExecutor(max_workers=6) as ex:
+        return list(ex.map(one, reqs))
+
+def _pack(bs):
+    v = 0
+    for b in bs: v = v * 256 + b
+    return v
+
+def phcrun_reqs(seed, thorough):
+    rnd = random.Random(seed * 7919 + 13)
+    cases = []
+    def add(s, chrony=None, stratum=1, ip4=0, phc=250000):
+        bs = s if isinstance(s, bytes) else s.encode()
+        cases.append(f"phcrun {bs.hex()} {_pack(bs) % 2**32 if chrony is None else chrony} {stratum} {ip4} {phc}")
+    add('PHC0'); add('PHC0', chrony=_pack(b'PHC1')); add('phc0'); add('phc0', chrony=_pack(b'PHC0')); add('PHC0', chrony=_pack(b'phc0'))
+    add('EC2A'); add('1234'); add('c0de'); add('PHC0', stratum=3); add('PHC0', stratum=0); add('PHC0', ip4=0x50484330)
+    add('GPS'); add('P'); add(' PHC'); add('PHC '); add('PHC0', phc=1); add('PHC0', phc=2**40)
+    add('PHC00'); add('\u00a9'); add('PHC0', chrony=0); add('PH', chrony=_pack(b'PH\0\0'))
+    alphabet = b'0123456789abcdefABCDEFGHIJKLMNOPQRSTUVWXYZghijklmnopqrstuvwxyz _.'   # no '-': clap would read a leading one as an option
+    for _ in range(60 if thorough else 8):
+        bs = bytes(rnd.choice(alphabet) for _ in range(rnd.choice((4, 4, 4, 3, 2))))
+        k = rnd.randrange(4)
+        other = bytes((b ^ 0x20) if (65 <= (b & ~0x20) <= 90) else b for b in bs)   # the other case of every letter
+        add(bs, chrony=None if k < 2 else _pack(other) if k == 2 else _pack(bs) ^ (1 << rnd.randrange(32)),
+            stratum=rnd.choice((1, 1, 2, 10)), phc=rnd.choice((250000, 12345, 10**9)))
+    return list(dict.fromkeys(cases))
+
+EXTERNAL['phcrun'] = phcrun_exec
+PHCRUN_RULE = (" || `phcrun` lines (tools/phc_run.sh): the RELEASE daemon binary built from the working tree, in a private mount namespace, is given "
+               "--phc-ref-id <string> and an interface that resolves to a fake PCI device whose phc_error_bound attribute holds a given value; a stand-in "
+               "chronyd reports one fixed synchronised measurement with a given reference id / stratum / source address; the bound of the first trusted "
+               "record must contain the PHC value exactly when the string's big-endian packing (refidOf) equals the reported id: same and different ids, "
+               "lower-case and hexadecimal-looking ids, ids of 1-3 characters, ids with blanks, other strata, a source address that aliases the id, "
+               "strings that are no reference id (must be refused), plus seeded ids compared with their exact packing, their other-case spelling and a one-bit neighbour")
+for _p in ('C13', 'C07', 'C01'):
+    _c = PROPS[_p]
+    _c['gens'] = (lambda old: lambda seed, th: old(seed, th) + [lambda: phcrun_exec(phcrun_reqs(seed, th))])(_c['gens'])
+    _c['relevant'] = (lambda old: lambda c: old(c) or kind(c) == 'phcrun')(_c['relevant'])
+    _c['project'] = (lambda old: lambda c: (c.impl, c.model) if kind(c) == 'phcrun' else old(c))(_c['project'])
+    if _p != 'C01':
+        _c['nontrivial'] = (lambda old: lambda c: ('match' in c.tags or 'nomatch' in c.tags) if kind(c) == 'phcrun' else old(c))(_c['nontrivial'])
+    _c['rule'] = _c.get('rule', '') + PHCRUN_RULE
+    _c['lean_modules'] = list(_c.get('lean_modules', [f'ClockBound.Properties.{_p}'])) + ['ClockBound.Properties.C13Refid']
+    if 'C13' not in _c.get('also', []) and _p != 'C13': _c['also'] = list(_c.get('also', [])) + ['C13']
+
 # properties whose theorem files are still being proved are not claimed yet
 for _p in ():
     PROPS[_p]['claimed'] = False
